@@ -117,13 +117,24 @@ class RealSteps:
             self.force_progress = False
 
     def _touches(self, w, path):
-        return w["paths"] is None or path in w["paths"]
+        return w["paths"] is None or path in w["paths"] or any(path.startswith(q + ".") for q in w["paths"])
+
+    @staticmethod
+    def _family_count(w, path):
+        """steps of writer w on `path` or on a sibling temporary name of it (<path>.<anything>): with a
+        write-to-temporary-then-rename protocol the states in which only the temporary file exists are reader-visible
+        too (glob / listdir), so they must be schedulable"""
+        base = path
+        for q in (w["paths"] or []):
+            if path.startswith(q + "."):
+                base = q
+        return sum(1 for p_ in w["done_paths"] if p_ == base or p_.startswith(base + "."))
 
     def _advance(self, w, path, d):
-        """let writer w run until it has made d more changes to `path` (or has finished)"""
-        target = w["done_paths"].count(path) + d
+        """let writer w run until it has made d more changes to `path` or its temporary siblings (or has finished)"""
+        target = self._family_count(w, path) + d
         with self.lock:
-            while not w["finished"] and w["done_paths"].count(path) < target:
+            while not w["finished"] and self._family_count(w, path) < target:
                 if w["pending"] is not None and w["permits"] == 0:
                     w["permits"] += 1
                     self.lock.notify_all()
@@ -262,8 +273,8 @@ class RealSteps:
                     cand = set()
                     for w in rs.writers.values():
                         for q in (w["paths"] or []):
-                            if os.path.dirname(q) == os.path.dirname(pat) and fnmatch.fnmatchcase(
-                                    os.path.basename(q), os.path.basename(pat)):
+                            if os.path.dirname(q) == os.path.dirname(pat) and (fnmatch.fnmatchcase(
+                                    os.path.basename(q), os.path.basename(pat)) or pat.startswith(q + ".")):
                                 cand.add(q)
                     for q in sorted(cand):
                         rs._observe(q)
